@@ -50,9 +50,16 @@ def run_fire(sc: Dict[str, Any], tid: int, keep_call: bool = False) -> Dict[str,
              "zero_yd": optional}"""
     import py_ballisticcalc as m
     core.reset_world()
+    # the preference preset in force while the (explicit-unit) objects are built and the shot is fired: by default it
+    # rotates with the shot's muzzle velocity, so that every check also runs under metric / mixed / imperial preferences
+    preset = sc.get("prefs")
+    if preset is None:
+        preset = ["defaults", "metric", "mixed", "imperial"][int(sc["shot"].get("mv_fps", 0) * 10) % 4]
+    {"defaults": m.PreferredUnits.defaults, "metric": m.loadMetricUnits, "mixed": m.loadMixedUnits,
+     "imperial": m.loadImperialUnits}[preset]()
     shot = shots.build_shot(sc["shot"])
     calc = shots.build_calc(sc.get("cfg"))
-    out: Dict[str, Any] = {"tid": tid, "sc": sc}
+    out: Dict[str, Any] = {"tid": tid, "sc": sc, "prefs": preset}
     if sc.get("zero_yd"):
         try:
             calc.set_weapon_zero(shot, m.Unit.Yard(sc["zero_yd"]))
